@@ -1,11 +1,238 @@
-/- C04 — executable model (stub; filled in by the property's owner). -/
+/-
+C04 — seeded watershed (`_morph.cpp`: `cwatershed`, `py_cwatershed`, `margin_of`;
+`numpypp/array.hpp`: `pos_to_flat`, `flat_to_pos`, `at_flat`; `morph.py`: `cwatershed`).
+
+Two executable definitions live here:
+
+* the **specification** `specRun` — the property's own algorithm over *coordinates*: a queue of
+  `(cost, insertion index, position)`, extract-min on `(cost, index)`, markers queued in scan
+  order, a label handed to every still-unlabelled neighbour *inside the image*; a queued pixel
+  visited from a pixel with another label is a line pixel. No margins, no flat deltas, no statuses.
+* the **model** `modelRun` — a transliteration of the C++: neighbour table with flat deltas
+  (zero deltas skipped) and Chebyshev steps, `margin_of` lower bounds with recomputation,
+  statuses white/grey/black, flat-index access to the cost, the (zero-filled, as repaired)
+  `res` and `lines` buffers.
+
+Costs are integers: the flooding only ever *compares* costs, so the harness sends integer dtypes
+as they are and floating surfaces as their dense ranks (NaN excluded).
+-/
 import Mahotas.Model.Border
 import Mahotas.Model.DType
 namespace Mahotas.C04
 open Mahotas
 
+/-! ### priority queue as a list: extract-min on `(cost, insertion index)` -/
+
+/-- `MarkerInfo::operator<` reversed: `a` is served before `b` -/
+def keyLt (a b : Int × Nat) : Bool := decide (a.1 < b.1) || (a.1 == b.1 && decide (a.2 < b.2))
+
+def minBy {α : Type} (key : α → Int × Nat) : α → List α → α
+  | m, [] => m
+  | m, x :: xs => minBy key (if keyLt (key x) (key m) then x else m) xs
+
+/-- the entry with the least `(cost, idx)` and the queue without it (insertion indices are unique) -/
+def extractMin {α : Type} (key : α → Int × Nat) : List α → Option (α × List α)
+  | [] => none
+  | x :: xs =>
+    let m := minBy key x xs
+    some (m, (x :: xs).filter fun e => (key e).2 != (key m).2)
+
+/-! ### writing into an image at a coordinate -/
+
+def imgSet {α : Type} (im : Img α) (p : List Int) (v : α) : Img α :=
+  if inside im.shape p then { im with data := im.data.setIfInBounds (ravelI im.shape p) v } else im
+
+/-! ### specification: priority flooding over coordinates -/
+
+structure SQE where
+  cost : Int
+  idx : Nat
+  pos : List Int
+deriving Repr
+
+structure SSt where
+  queue : List SQE
+  idx : Nat
+  label : Img Int
+  lines : Img Bool
+
+def SQE.key (e : SQE) : Int × Nat := (e.cost, e.idx)
+
+/-- the offsets `k - centre` of the non-zero entries of the neighbourhood, in C order -/
+def offsets (bshape : List Nat) (bc : Array Int) : List (List Int) :=
+  (List.range (shapeSize bshape)).filterMap fun j =>
+    if bc.getD j 0 == 0 then none else some (subPos (unravelI bshape j) (centreOf bshape))
+
+/-- markers are queued in scan order and keep their labels -/
+def specInit (surf : Img Int) (markers : Img Int) : SSt :=
+  (allPos surf.shape).foldl (fun st p =>
+      let m := markers.getD p 0
+      if m == 0 then st else
+        { st with queue := st.queue ++ [⟨surf.getD p 0, st.idx, p⟩], idx := st.idx + 1,
+                  label := imgSet st.label p m })
+    { queue := [], idx := 0,
+      label := ⟨surf.shape, Array.replicate (shapeSize surf.shape) 0⟩,
+      lines := ⟨surf.shape, Array.replicate (shapeSize surf.shape) false⟩ }
+
+/-- the finalised pixel `p` looks at its neighbour `p + off` -/
+def specVisit (surf : Img Int) (p : List Int) (st : SSt) (off : List Int) : SSt :=
+  let q := addPos p off
+  if !inside surf.shape q then st else
+  let lp := st.label.getD p 0
+  let lq := st.label.getD q 0
+  if lq == 0 then
+    -- still unlabelled: receives the label and is queued
+    { st with queue := st.queue ++ [⟨surf.getD q 0, st.idx, q⟩], idx := st.idx + 1,
+              label := imgSet st.label q lp }
+  else if st.queue.any (fun e => e.pos == q) then
+    -- queued: a line pixel when visited from another label
+    if lp != lq then { st with lines := imgSet st.lines q true } else st
+  else st
+
+def specStep (surf : Img Int) (offs : List (List Int)) (st : SSt) : Option SSt :=
+  match extractMin SQE.key st.queue with
+  | none => none
+  | some (e, rest) => some (offs.foldl (specVisit surf e.pos) { st with queue := rest })
+
+def specRun (surf : Img Int) (offs : List (List Int)) : Nat → SSt → SSt
+  | 0, st => st
+  | n + 1, st =>
+    match specStep surf offs st with
+    | none => st
+    | some st' => specRun surf offs n st'
+
+/-! ### model: transliteration of `cwatershed<T>` -/
+
+def axisMargin (n : Nat) (x : Int) : Int := min x ((n : Int) - x - 1)
+
+/-- `std::numeric_limits<npy_intp>::max()` -/
+def idxMax : Int := 9223372036854775807
+
+/-- `margin_of(position, ref)` -/
+def marginOf : List Nat → List Int → Int
+  | d :: ds, p :: ps => min (axisMargin d p) (marginOf ds ps)
+  | _, _ => idxMax
+
+/-- `pos_to_flat` applied to an offset (entries may be negative) -/
+def posToFlat : List Nat → List Int → Int
+  | _ :: ds, p :: ps => p * (shapeSize ds : Int) + posToFlat ds ps
+  | _, _ => 0
+
+/-- Chebyshev length of an offset (`NeighbourElem::step`) -/
+def chebStep : List Int → Int
+  | [] => 0
+  | x :: xs => max (x.natAbs : Int) (chebStep xs)
+
+structure Nb where
+  delta : Int
+  step : Int
+  off : List Int
+deriving Repr
+
+/-- the neighbour table of one offset; `delta == 0` entries are skipped (`if (!delta) continue`) -/
+def nbOf (shape : List Nat) (o : List Int) : Option Nb :=
+  let delta := posToFlat shape o
+  if delta == 0 then none else some ⟨delta, chebStep o, o⟩
+
+def neighbours (shape : List Nat) (offs : List (List Int)) : List Nb := offs.filterMap (nbOf shape)
+
+structure QE where
+  cost : Int
+  idx : Nat
+  pos : Nat
+  margin : Int
+deriving Repr
+
+def QE.key (e : QE) : Int × Nat := (e.cost, e.idx)
+
+/-- statuses: 0 white, 1 grey, 2 black -/
+structure MSt where
+  queue : List QE
+  idx : Nat
+  status : Array Nat
+  res : Array Int
+  lines : Array Bool
+
+/-- marker scan: push `(cost, idx++, flat, margin_of)`, copy the label, mark grey -/
+def modelInit (surf : Img Int) (markers : Img Int) : MSt :=
+  let n := shapeSize surf.shape
+  (List.range n).foldl (fun st i =>
+      let m := markers.data.getD i 0
+      if m == 0 then st else
+        let mpos := unravelI surf.shape i
+        { st with queue := st.queue ++ [⟨surf.data.getD i 0, st.idx, i, marginOf surf.shape mpos⟩],
+                  idx := st.idx + 1,
+                  res := st.res.setIfInBounds i m,
+                  status := st.status.setIfInBounds i 1 })
+    { queue := [], idx := 0, status := Array.replicate n 0,
+      res := Array.replicate n 0, lines := Array.replicate n false }
+
+/-- the bounds decision of the inner loop: `none` = `continue` (outside the image),
+    `some (nmargin, margin')` = go on with the neighbour's margin and the updated lower bound -/
+def nbCheck (shape : List Nat) (pos : Nat) (margin : Int) (nb : Nb) : Option (Int × Int) :=
+  let nmargin := margin - nb.step
+  if nmargin < 0 then
+    let long := addPos (unravelI shape pos) nb.off
+    let nm := marginOf shape long
+    if nm < 0 then none
+    else some (nm, if nm - nb.step > margin then nm - nb.step else margin)
+  else some (nmargin, margin)
+
+def modelVisit (surf : Img Int) (next : QE) (acc : MSt × Int) (nb : Nb) : MSt × Int :=
+  let (st, margin) := acc
+  match nbCheck surf.shape next.pos margin nb with
+  | none => (st, margin)
+  | some (nmargin, margin') =>
+    let npos := ((next.pos : Int) + nb.delta).toNat
+    -- `switch (status[npos])`: white / grey / (black: nothing)
+    if st.status.getD npos 0 == 0 then
+      ({ st with queue := st.queue ++ [⟨surf.data.getD npos 0, st.idx, npos, nmargin⟩],
+                 idx := st.idx + 1,
+                 res := st.res.setIfInBounds npos (st.res.getD next.pos 0),
+                 status := st.status.setIfInBounds npos 1 }, margin')
+    else if st.status.getD npos 0 == 1 then
+      (if st.res.getD next.pos 0 != st.res.getD npos 0
+        then { st with lines := st.lines.setIfInBounds npos true } else st, margin')
+    else (st, margin')
+
+def modelStep (surf : Img Int) (nbs : List Nb) (st : MSt) : Option MSt :=
+  match extractMin QE.key st.queue with
+  | none => none
+  | some (e, rest) =>
+    let st1 := { st with queue := rest, status := st.status.setIfInBounds e.pos 2 }
+    some (nbs.foldl (modelVisit surf e) (st1, e.margin)).1
+
+def modelRun (surf : Img Int) (nbs : List Nb) : Nat → MSt → MSt
+  | 0, st => st
+  | n + 1, st =>
+    match modelStep surf nbs st with
+    | none => st
+    | some st' => modelRun surf nbs n st'
+
+/-! ### driver entry -/
+
+/-- every pixel is queued at most once, so `size + 1` steps always drain the queue
+    (the driver reports `done` so that the harness can insist on it) -/
+def fuelOf (shape : List Nat) : Nat := shapeSize shape + 1
+
+def cwatershedSpec (surf markers : Img Int) (bshape : List Nat) (bc : Array Int) : SSt :=
+  specRun surf (offsets bshape bc) (fuelOf surf.shape) (specInit surf markers)
+
+def cwatershedModel (surf markers : Img Int) (bshape : List Nat) (bc : Array Int) : MSt :=
+  modelRun surf (neighbours surf.shape (offsets bshape bc)) (fuelOf surf.shape) (modelInit surf markers)
+
 def handle (a : Args) : String :=
   match a.str "kind" with
+  | "ws" =>
+    let shape := a.nats "shape"
+    let surf : Img Int := ⟨shape, (a.ints "data").toArray⟩
+    let markers : Img Int := ⟨shape, (a.ints "markers").toArray⟩
+    let bshape := a.nats "bshape"
+    let bc := (a.ints "bc").toArray
+    let s := cwatershedSpec surf markers bshape bc
+    let m := cwatershedModel surf markers bshape bc
+    let done := s.queue.isEmpty && m.queue.isEmpty
+    s!"spec={showInts s.label.data.toList} slines={showBools s.lines.data.toList} model={showInts m.res.toList} mlines={showBools m.lines.toList} done={if done then 1 else 0}"
   | k => s!"error=unknown-kind-{k}"
 
 end Mahotas.C04
